@@ -60,6 +60,12 @@ func c09Prop(t *testing.T, k *verifkit.Kit) func(c c09Case) error {
 		invalid := map[string]float64{}
 		run, maxRun, followed := 0, 0, false
 		for _, e := range c.Events {
+			if e.Kind == "readerr" {
+				// transient receive timeouts (fewer than 5 per receive) stay in the reference
+				// sequence: their back-off legitimately delays the reads that follow
+				filtered = append(filtered, e)
+				continue
+			}
 			if c09Invalid(e, c.Monitor) {
 				typ := e.Msg
 				if e.Kind == "rs" {
@@ -79,6 +85,12 @@ func c09Prop(t *testing.T, k *verifkit.Kit) func(c c09Case) error {
 		cls := []string{fmt.Sprintf("longest-invalid-run=%d", min(maxRun, 12)), fmt.Sprintf("monitor=%v", c.Monitor)}
 		if maxRun >= 5 {
 			cls = append(cls, "run>=retry-budget")
+		}
+		for _, e := range c.Events {
+			if e.Kind == "readerr" {
+				cls = append(cls, "with-receive-timeouts")
+				break
+			}
 		}
 		k.Record(c, followed, cls...)
 
@@ -202,12 +214,25 @@ func c09Gen(t *rapid.T) c09Case {
 	c := c09Case{Monitor: rapid.IntRange(0, 2).Draw(t, "monitor") == 0}
 	at := int64(3500 * time.Millisecond)
 	for i, n := 0, rapid.IntRange(1, 8).Draw(t, "nsegments"); i < n; i++ {
-		// a run of invalid messages ...
+		// a run of invalid messages, with up to 4 transient receive timeouts sprinkled in
+		// (fewer than the retry budget of 5 between two valid messages) ...
+		timeouts := 0
 		for j, m := 0, rapid.SampledFrom([]int{0, 1, 2, 4, 5, 6, 12, 40}).Draw(t, "invalidrun"); j < m; {
+			if timeouts < 4 && rapid.IntRange(0, 3).Draw(t, "timeout") == 0 {
+				n := rapid.IntRange(1, 4-timeouts).Draw(t, "ntimeouts")
+				c.Events = append(c.Events, advEvent{AtNS: at, Kind: "readerr", Err: "timeout", N: n})
+				timeouts += n
+			}
 			ev := c09GenEvent(t, at, true, c.Monitor)
 			c.Events = append(c.Events, ev)
 			j += max(ev.N, 1)
 			at += rapid.SampledFrom([]int64{0, 0, 1, int64(time.Millisecond), int64(100 * time.Millisecond)}).Draw(t, "igap")
+		}
+		if rapid.IntRange(0, 7).Draw(t, "novalid") != 0 {
+			// make sure a valid message ends the receive that saw the timeouts
+			c.Events = append(c.Events, advEvent{AtNS: at, Kind: "rs", From: "fe80::b"})
+		} else if timeouts > 0 {
+			c.Events = append(c.Events, advEvent{AtNS: at, Kind: "rs", From: "fe80::b"})
 		}
 		// ... followed by valid ones
 		for j, m := 0, rapid.IntRange(0, 3).Draw(t, "validrun"); j < m; j++ {
